@@ -352,29 +352,10 @@ def run(ctx):
     # R08.8
     fsz = u.function("rtosc_bundle_size")
     rets = [x for x in A.walk(u.body(fsz)) if x.get("kind") == "ReturnStmt"]
-    okp = bool(rets)
     srcs = []
     for r_ in rets:
-        e = A.strip_casts(A.kids(r_)[0])
-        def origin(e, depth=0):
-            e = A.strip_casts(e)
-            if A.int_literal(e) == 0:
-                return ["0"]
-            if e.get("kind") == "CallExpr":
-                return [A.callee_name(e)]
-            if e.get("kind") == "DeclRefExpr" and depth < 3:
-                vid = e["referencedDecl"]["id"]
-                outs = []
-                d = u.by_id.get(vid)
-                if d is not None and A.kids(d):
-                    outs += origin(A.kids(d)[-1], depth + 1)
-                for y in A.walk(u.body(fsz)):
-                    if y.get("kind") == "BinaryOperator" and y.get("opcode") == "=" and A.ref_id(A.kids(y)[0]) == vid:
-                        outs += origin(A.kids(y)[1], depth + 1)
-                return outs
-            return ["?" + A.src(e)[:40]]
-        srcs += origin(e)
-    okp = okp and set(srcs) <= {"0", "extract_uint32"} and "extract_uint32" in srcs
+        srcs += sorted(_value_leaves(u, A.kids(r_)[0], fsz, None, 0))
+    okp = bool(rets) and set(srcs) <= {"constant", "read through a pointer"} and "read through a pointer" in srcs
     ctx.ob("R08.8", "rtosc_bundle_size", okp, site=A.where(fsz), detail={"returned_value_comes_from": sorted(set(srcs))},
            what="rtosc_bundle_size returns a value obtained from %s instead of the element's stored size field" % sorted(set(srcs)))
     # R08.7
@@ -427,3 +408,75 @@ def bundle_measure_obligation(ctx, u, rule):
     ctx.ob(rule, "rtosc_bundle:sizer-measures-like-copier", len(measures) >= 2 and len({(m[0], m[1]) for m in measures}) == 1, site=A.where(fnb),
            detail={"measurements": [list(m) for m in measures]},
            what="rtosc_bundle measures its elements differently when sizing and when copying: %s" % [(m[0], m[1]) for m in measures])
+
+
+def _value_leaves(u, e, fn, member, depth):
+    """where a value comes from: {"constant", "read through a pointer", "parameter <name>", "call <public function>", "?..."}.
+    Locals are followed through their initialisers and assignments, struct members through the assignments to that
+    member, file-local (static) helpers through their return values; a call of a function with external linkage is a
+    leaf (a measurement such as rtosc_message_length is not looked into)."""
+    e = A.strip_casts(e)
+    k = e.get("kind")
+    if depth > 8:
+        return {"?deep"}
+    if A.int_literal(e) is not None or k in ("IntegerLiteral", "CharacterLiteral"):
+        return {"constant"}
+    if k in ("ArraySubscriptExpr",) or (k == "UnaryOperator" and e.get("opcode") == "*"):
+        return {"read through a pointer"}
+    if k in ("BinaryOperator", "ConditionalOperator", "ParenExpr") or (k == "UnaryOperator" and e.get("opcode") in ("-", "+", "~", "!")):
+        out = set()
+        ks = A.kids(e)
+        for sub in (ks[1:] if k == "ConditionalOperator" else ks):
+            out |= _value_leaves(u, sub, fn, member, depth + 1)
+        return out
+    if k == "MemberExpr" and A.kids(e):
+        return _value_leaves(u, A.kids(e)[0], fn, e.get("name"), depth + 1)
+    if k == "InitListExpr":
+        if member is not None:
+            # positional initialiser of a struct: the member's index in its record
+            rec = None
+            for cand in u.by_id.values():
+                if cand.get("kind") in ("RecordDecl", "CXXRecordDecl") and any(f.get("kind") == "FieldDecl" and f.get("name") == member for f in A.kids(cand)):
+                    rec = cand
+            if rec is not None:
+                names = [f.get("name") for f in A.kids(rec) if f.get("kind") == "FieldDecl"]
+                i = names.index(member)
+                if i < len(A.kids(e)):
+                    return _value_leaves(u, A.kids(e)[i], fn, None, depth + 1)
+            return {"constant"}
+        out = set()
+        for sub in A.kids(e):
+            out |= _value_leaves(u, sub, fn, None, depth + 1)
+        return out
+    if k == "CallExpr":
+        nm = A.callee_name(e)
+        helpers = [f for f in u.functions.get(nm, []) if u.body(f) is not None and f.get("storageClass") == "static"]
+        if len(helpers) == 1:
+            out = set()
+            for r_ in A.walk(u.body(helpers[0])):
+                if r_.get("kind") == "ReturnStmt" and A.kids(r_):
+                    out |= _value_leaves(u, A.kids(r_)[0], helpers[0], member, depth + 1)
+            return out or {"?no return in " + str(nm)}
+        return {"call " + str(nm)}
+    if k == "DeclRefExpr":
+        rd = e.get("referencedDecl") or {}
+        if rd.get("kind") == "ParmVarDecl":
+            return {"parameter " + str(rd.get("name"))}
+        vid = rd.get("id")
+        d = u.by_id.get(vid)
+        out = set()
+        if d is not None and A.kids(d) and d.get("kind") == "VarDecl":
+            out |= _value_leaves(u, A.kids(d)[-1], fn, member, depth + 1)
+        for y in A.walk(u.body(fn)):
+            if y.get("kind") in ("BinaryOperator", "CompoundAssignOperator") and y.get("opcode", "").endswith("=") and y.get("opcode") not in ("==", "!=", "<=", ">="):
+                l = A.strip_casts(A.kids(y)[0])
+                if member is None and A.ref_id(l) == vid:
+                    out |= _value_leaves(u, A.kids(y)[1], fn, None, depth + 1)
+                elif member is not None and l.get("kind") == "MemberExpr" and l.get("name") == member and A.ref_id(A.kids(l)[0]) == vid:
+                    out |= _value_leaves(u, A.kids(y)[1], fn, None, depth + 1)
+            if y.get("kind") == "UnaryOperator" and y.get("opcode") in ("++", "--"):
+                l = A.strip_casts(A.kids(y)[0])
+                if (member is None and A.ref_id(l) == vid) or (member is not None and l.get("kind") == "MemberExpr" and l.get("name") == member and A.ref_id(A.kids(l)[0]) == vid):
+                    out.add("constant")
+        return out or {"?unassigned " + str(rd.get("name"))}
+    return {"?" + A.src(e)[:40]}
